@@ -321,8 +321,13 @@ def run_seed_matrix(prop, jobs):
                 continue
             t1 = time.time()
             env = {**os.environ, "HGV_REPO": w, "HGV_SEEDS": "0"}
-            q = subprocess.run([sys.executable, "-m", "hgv", "check", prop, "--tier", "quick", "--no-evidence", "--jobs", str(jobs)], cwd=VERIF, env=env, capture_output=True, text=True)
+            cmd = [sys.executable, "-m", "hgv", "check", prop, "--tier", "quick", "--no-evidence", "--jobs", str(jobs)]
+            q = subprocess.run(cmd, cwd=VERIF, env=env, capture_output=True, text=True)
             viol = [l for l in q.stdout.splitlines() if l.startswith("VIOLATION")]
+            if not (q.returncode == 1 and viol):
+                # once more before calling it a regression of the checker (solver time-outs under load)
+                q = subprocess.run(cmd, cwd=VERIF, env=env, capture_output=True, text=True)
+                viol = [l for l in q.stdout.splitlines() if l.startswith("VIOLATION")]
             entries.append(
                 {
                     "seed": name,
